@@ -178,6 +178,39 @@ func holdConn(c net.Conn) {
 	}
 }
 
+// holdWS is the websocket upstream: GET /ws/<id> with "Upgrade: websocket" is answered with 101, then the
+// connection speaks the line protocol of the TCP upstreams from "ack" on (the session is a byte pipe for the proxy).
+func holdWS(w http.ResponseWriter, r *http.Request) {
+	it := lookupItem(strings.TrimPrefix(r.URL.Path, "/ws/"))
+	hj, ok := w.(http.Hijacker)
+	if it == nil || !ok {
+		http.NotFound(w, r)
+		return
+	}
+	c, brw, err := hj.Hijack()
+	if err != nil {
+		return
+	}
+	defer c.Close()
+	if _, err := io.WriteString(c, "HTTP/1.1 101 Switching Protocols\r\nUpgrade: websocket\r\nConnection: Upgrade\r\n\r\n"); err != nil {
+		return
+	}
+	if _, err := io.WriteString(c, "ack\n"); err != nil {
+		return
+	}
+	it.markStarted()
+	gone := make(chan struct{})
+	go func() {
+		io.Copy(io.Discard, brw.Reader)
+		close(gone)
+	}()
+	select {
+	case <-it.release:
+		io.WriteString(c, "done\n")
+	case <-gone:
+	}
+}
+
 func acceptLoop(ln net.Listener) {
 	for {
 		c, err := ln.Accept()
@@ -229,6 +262,10 @@ func startUpstreams() (*upstreams, error) {
 	}
 	u.httpAddr = hl.Addr().String()
 	go http.Serve(hl, http.HandlerFunc(func(w http.ResponseWriter, r *http.Request) {
+		if strings.EqualFold(r.Header.Get("Upgrade"), "websocket") {
+			holdWS(w, r)
+			return
+		}
 		it := lookupItem(strings.TrimPrefix(r.URL.Path, "/hold/"))
 		if it == nil {
 			http.NotFound(w, r)
